@@ -114,7 +114,10 @@ def run(repo: Repo, rep: Report, tier: str) -> None:
     _dedup_site(repo.func("visit.endpoint.processors.parameter_processor:EndpointParameterProcessor.process_parameters"), "operation parameters",
                 "param_details_map", _Relabel(rep, "R1.9"))
     po = repo.func("core.loader.operations.parser:parse_operations")
-    if "p.name == op_param.name and p.param_in == op_param.param_in" in full(po.node):
+    from rules._params import override_merge_keys
+
+    keys = override_merge_keys(po)
+    if keys is not None and keys <= {"name", "param_in"}:
         rep.ok("R1.9", f"{po.module.relpath}:parse_operations", "operation-level parameter overrides the path-level one: no parameter is declared twice", po.loc())
     else:
         rep.violation("R1.9", f"{po.module.relpath}:parse_operations", f"{po.fq}|no-merge",
